@@ -43,20 +43,31 @@ def cfgNow (methods : List Method) : Cfg :=
   { methods := methods
     threshold := Facts.C13.sweepThresholdSeconds
     notFoundIsUncommitted := Facts.C13.nutsIsCommittedNotFoundIsUncommitted
-    rollbackDeletesCreatedDID := Facts.C13.rollbackDeletesCreatedDID }
+    rollbackDeletesCreatedDID := Facts.C13.rollbackDeletesCreatedDID
+    sweepWholeTx := Facts.C13.sweepLoadsWholeTransaction }
+
+/-- `Rollback` loads all changes of a transaction before it decides (the stamps of one transaction may differ) -/
+theorem fact_sweep_handles_whole_transaction : Facts.C13.sweepLoadsWholeTransaction = true := by decide
 
 theorem cfgNow_fixed (ms : List Method) : Fixed (cfgNow ms) :=
-  ⟨fact_nuts_not_found_is_uncommitted, fact_rollback_deletes_created_did.2⟩
+  ⟨fact_nuts_not_found_is_uncommitted, fact_rollback_deletes_created_did.2, fact_sweep_handles_whole_transaction⟩
 
 /-! ### The two defects that were repaired (negation witnesses for the code before the `fix:` commits) -/
 
 /-- before 7882721: `IsCommitted` returned the resolver's not-found error -/
 def cfgBeforeFixA : Cfg :=
-  { methods := [.nuts, .web], threshold := 60, notFoundIsUncommitted := false, rollbackDeletesCreatedDID := true }
+  { methods := [.nuts, .web], threshold := 60, notFoundIsUncommitted := false, rollbackDeletesCreatedDID := true,
+    sweepWholeTx := true }
+
+/-- before 4209f73: only the changes that were old themselves were grouped -/
+def cfgBeforeFixC : Cfg :=
+  { methods := [.nuts, .web], threshold := 60, notFoundIsUncommitted := true, rollbackDeletesCreatedDID := true,
+    sweepWholeTx := false }
 
 /-- before fc00979: only the versions were deleted -/
 def cfgBeforeFixB : Cfg :=
-  { methods := [.nuts, .web], threshold := 60, notFoundIsUncommitted := true, rollbackDeletesCreatedDID := false }
+  { methods := [.nuts, .web], threshold := 60, notFoundIsUncommitted := true, rollbackDeletesCreatedDID := false,
+    sweepWholeTx := true }
 
 /-- create; stop before the first Commit; 61 s later the sweep: `IsCommitted` fails with not-found, `Rollback` aborts,
     both change records (and the unpublished documents) stay — on every later sweep as well -/
@@ -72,7 +83,27 @@ theorem old_rollback_blocks_retry :
     (w1.dids.map (·.vers.length)) = [0, 0] ∧
     (stepOp cfgBeforeFixB w1 (.create "s") [.nuts, .web] .none).2 = "err:exists" := by decide
 
-/-- … and with today's code both scenarios end clean and the retry succeeds -/
+/-- add key on a subject with two DIDs, stop before the first Commit; the did:nuts version was stamped 2 s earlier than the
+    did:web version (each `CreateOrUpdate` reads the clock); a sweep 61 s after the first stamp: only the did:nuts change
+    is old, it is rolled back, the change log of the whole transaction is deleted — the did:web DID keeps the
+    uncommitted version (with its never-published key) for good -/
+theorem old_sweep_splits_transaction :
+    let cfg := cfgBeforeFixC
+    let w0 := (stepOp cfg { now := 1000 } (.create "s") [.nuts, .web] .none).1
+    let w1 := (stepOp cfg w0 (.addKey "s") [.nuts, .web] (.stop 0)).1
+    let w2 := restamp (fun r v => if r.method = .nuts ∧ v.pending.isSome then v.ts - 2 else v.ts) w1
+    let w3 := (sweep cfg id (tick 59 w2)).1
+    w3.dids.map (fun r => (r.method, r.vers.length)) = [(.nuts, 1), (.web, 2)] ∧ logCount w3 = 0 := by decide
+
+/-- … and with today's code all three scenarios end clean and the retry succeeds -/
+example :
+    let cfg := cfgNow [.nuts, .web]
+    let w0 := (stepOp cfg { now := 1000 } (.create "s") [.nuts, .web] .none).1
+    let w1 := (stepOp cfg w0 (.addKey "s") [.nuts, .web] (.stop 0)).1
+    let w2 := restamp (fun r v => if r.method = .nuts ∧ v.pending.isSome then v.ts - 2 else v.ts) w1
+    let w3 := (sweep cfg id (tick 59 w2)).1
+    w3.dids.map (fun r => (r.method, r.vers.length)) = [(.nuts, 1), (.web, 1)] ∧ logCount w3 = 0 := by decide
+
 example :
     let cfg := cfgNow [.nuts, .web]
     let w1 := (stepOp cfg {} (.create "s") [.nuts, .web] (.stop 0)).1
@@ -95,19 +126,18 @@ section
 variable {cfg : Cfg}
 
 /-- **all DIDs of a subject move together**: in every reachable world the DIDs of one subject have the same version
-    numbers, the same time stamps, the same services and the same change records, version by version -/
+    numbers, the same services and the same change records, version by version (whatever their time stamps) -/
 theorem uniform_versions (hfix : Fixed cfg) (hms : cfg.methods.Nodup) {w : World} (h : Reach cfg w) :
     ∀ r ∈ w.dids, ∀ r2 ∈ w.dids, r.subject = r2.subject →
-      r.vers.map (·.n) = r2.vers.map (·.n) ∧ r.vers.map (·.ts) = r2.vers.map (·.ts) ∧
+      r.vers.map (·.n) = r2.vers.map (·.n) ∧
       r.vers.map (·.c.svcs) = r2.vers.map (·.c.svcs) ∧ r.vers.map (·.pending) = r2.vers.map (·.pending) := by
   intro r hr r2 hr2 hs
   have hsig := (reach_inv hfix hms h).uniform r hr r2 hr2 hs
   have e1 := congrArg (List.map (·.1)) hsig
   have e2 := congrArg (List.map (·.2.1)) hsig
-  have e3 := congrArg (List.map (·.2.2.1)) hsig
-  have e4 := congrArg (List.map (·.2.2.2)) hsig
-  simp only [sig, List.map_map] at e1 e2 e3 e4
-  exact ⟨e1, e2, e3, e4⟩
+  have e3 := congrArg (List.map (·.2.2)) hsig
+  simp only [sig, List.map_map] at e1 e2 e3
+  exact ⟨e1, e2, e3⟩
 
 /-- **versions are consecutive**: the versions of every DID are numbered `0 … n-1` without gaps (newest first), every DID
     has at least one version, and only the newest version can carry a change record -/
@@ -166,12 +196,16 @@ theorem all_or_nothing (hfix : Fixed cfg) (hms : cfg.methods.Nodup) {w : World} 
     | none => rfl
     | some p =>
       rcases hfate r' hr' with ⟨r, hr, _, _, hfrom⟩
-      rcases hfrom v' hv' p hp with ⟨v, hv, hpv, hts⟩
+      rcases hfrom v' hv' p hp with ⟨v, hv, hpv, _⟩
       have h1 := hold r hr v hv (by rw [hpv]; simp)
       have h2 := hnew r' hr' v' hv' p hp
-      simp only [isOld, decide_eq_false_iff_not] at h2
-      rw [← hts] at h2
-      exact absurd h1 h2
+      have h3 : inOldTx cfg w v' = true := by
+        simp only [inOldTx, hp, List.any_eq_true, decide_eq_true_eq]
+        refine ⟨{ did := r.id, method := r.method, row := v.row, typ := p.typ, tx := p.tx, ts := v.ts, c := v.c }, ?_, rfl⟩
+        unfold oldChanges
+        rw [List.mem_filter]
+        exact ⟨(mem_allChanges w _).2 ⟨r, hr, v, hv, p, hpv, rfl⟩, by simpa using h1⟩
+      rw [h3] at h2; cases h2
   · intro r hr r2 hr2 hs
     have := congrArg List.length (hinv.uniform r hr r2 hr2 hs)
     simpa [sig] using this
@@ -225,5 +259,39 @@ example : logCount (tick 61 wStopped) = 2 ∧
 
 example : ∃ w1 chs e, tx1 (cfgNow [.nuts, .web]) {} (.create "s") = .ok (w1, chs) ∧
     (commitLoop .failNuts chs [.web, .nuts] 0 w1.pub).2 = .failed e := ⟨_, _, _, rfl, rfl⟩
+
+/-! ### Schedules the property does not quantify over (documented assumptions; witnesses, NOT claimed)
+
+Both are excluded from `Reach`: the first by its `Clean` premise, the second because an operation is one step. -/
+
+/-- after a stop, a new operation on the same subject BEFORE the sweep builds on the uncommitted version; the sweep then
+    removes version 1 from under version 2: versions `[2, 0]`, and service A — whose operation was abandoned — is
+    published as part of version 2 -/
+example :
+    let cfg := cfgNow [.nuts, .web]
+    let w0 := (stepOp cfg {} (.create "s") [.nuts, .web] .none).1
+    let w1 := (stepOp cfg w0 (.addSvc "s" "A") [.nuts, .web] (.stop 0)).1
+    let w2 := (stepOp cfg w1 (.addSvc "s" "B") [.nuts, .web] .none).1
+    let w3 := (sweep cfg id (tick 61 w2)).1
+    ¬ Clean w1.dids "s" ∧ w3.dids.map (fun r => r.vers.map (·.n)) = [[2, 0], [2, 0]] ∧
+    (w3.pub 0).map (·.svcs) = [["A", "B"], []] := by
+  refine ⟨?_, by decide, by decide⟩
+  intro h
+  have := h _ (List.mem_cons_self ..) (by decide) _ (List.mem_cons_self ..)
+  revert this
+  decide
+
+/-- an operation that stays in flight longer than the sweep threshold: the sweep runs between its first transaction and
+    its Commit calls, deletes the (not yet published) versions, and the late Commit still publishes them: the network
+    shows service A, the database does not, and nothing records the difference -/
+example :
+    let cfg := cfgNow [.nuts, .web]
+    let w0 := (stepOp cfg {} (.create "s") [.nuts, .web] .none).1
+    ∃ w1 chs, tx1 cfg w0 (.addSvc "s" "A") = .ok (w1, chs) ∧
+      let w2 := (sweep cfg id (tick 61 w1)).1
+      let pub := (commitLoop .none chs [.nuts, .web] 0 w2.pub).1
+      let w3 := tx2 cfg { w2 with pub := pub } chs false
+      w3.dids.map (fun r => r.vers.map (·.c.svcs)) = [[[]], [[]]] ∧ logCount w3 = 0 ∧
+      (pubLatest w3.pub 0).map (·.svcs) = some ["A"] := ⟨_, _, rfl, by decide⟩
 
 end Nuts.C13.Props
